@@ -1,4 +1,5 @@
 (** Extraction roots of the design-level reference semantics (driver: extract/drv_design.ml). *)
-From SP Require Design.Sem.
+From SP Require Design.Sem Design.Flat.
 Definition roots := (Design.Sem.valid_b, Design.Sem.all_valid, Design.Sem.candidates_count,
-                     Design.Sem.factor_ok, Design.Sem.crossing_ok, Design.Sem.constraint_ok).
+                     Design.Sem.factor_ok, Design.Sem.crossing_ok, Design.Sem.constraint_ok,
+                     Design.Flat.sustain_of, Design.Flat.fl_trials).
